@@ -47,10 +47,56 @@ class CoopLock:
     def locked(self):
         return self.locked_flag
 
-    __enter__ = acquire
+    def blocks(self, idx):
+        """would an acquire by worker idx have to wait?"""
+        return self.locked_flag
+
+    def state(self):
+        return self.locked_flag
+
+    def __enter__(self):
+        return self.acquire()
 
     def __exit__(self, *a):
         self.release()
+
+
+class CoopRLock(CoopLock):
+    """Replacement for threading.RLock: owned by a thread, re-entrant for its owner, release by a non-owner raises."""
+
+    def __init__(self):
+        CoopLock.__init__(self)
+        self.count = 0
+
+    def acquire(self, blocking=True, timeout=-1):
+        run = Run.current
+        run.point(("acq", self))
+        if self.locked_flag and self.owner != run.me():
+            raise RuntimeError("scheduler granted a held lock")
+        self.locked_flag = True
+        self.owner = run.me()
+        self.count += 1
+        if run.fine:
+            run.point(("after-acq", self))
+        return True
+
+    def release(self):
+        run = Run.current
+        run.point(("rel", self))
+        if not self.locked_flag or self.owner != run.me():
+            raise RuntimeError("cannot release un-acquired lock")
+        self.count -= 1
+        if self.count == 0:
+            self.locked_flag = False
+            self.owner = None
+        if run.fine:
+            run.point(("after-rel", self))
+
+    def blocks(self, idx):
+        return self.locked_flag and self.owner != idx
+
+    def state(self):
+        return (self.locked_flag, self.owner, self.count)
 
 
 class Worker:
@@ -111,7 +157,7 @@ class Run:
             if w.done:
                 continue
             op = w.pending
-            if op[0] == "acq" and op[1].locked_flag:
+            if op[0] == "acq" and op[1].blocks(w.idx):
                 continue
             out.append(w.idx)
         return out
